@@ -76,6 +76,16 @@ func (r *round2) StoreBroadcastMessage(msg round.Message) error {
 	// produced in the previous round. Note how we do the same hash cloning,
 	// but this time with the ID of the message sender.
 
+	// The polynomial must have exactly the agreed degree, and be of the same kind (zero constant
+	// when refreshing, non-zero otherwise) as everybody else's, otherwise the polynomials cannot
+	// be summed in the last round.
+	if body.Phi_i.IsConstant != r.refresh {
+		return fmt.Errorf("party %s sent a polynomial of the wrong kind", from)
+	}
+	if body.Phi_i.Degree() != r.threshold {
+		return fmt.Errorf("party %s sent a polynomial of degree %d, expected %d", from, body.Phi_i.Degree(), r.threshold)
+	}
+
 	// Refresh: There's no proof to verify, but instead check that the constant is identity
 	if r.refresh {
 		if !body.Phi_i.Constant().IsIdentity() {
